@@ -22,6 +22,8 @@ from gv.props import describe
 from gv.props.c01 import compute_roles
 from gv.props.shared import branch_conditions
 from gv.props.shared import conj_literals
+from gv.props.shared import literal_facts
+from gv.props.shared import unfolded
 from gv.props.shared import store_protocol
 from gv.report import Ctx
 from gv.report import cname
@@ -137,12 +139,78 @@ def check_counter(ctx: Ctx) -> None:
     from gv.ordering import Unsupported
     from gv.ordering import same_predicate
 
+    p = _comparison_form(ctx.index, ctx.index.cls(EC, "EvaluationCounter"), p)
     try:
         ok, cex = same_predicate(p, {"self.current": "current", "self.maximum": "maximum"}, lambda current, maximum: maximum != 0 and current >= maximum, where=lambda current, maximum: current >= 0 and maximum >= 0)
         why = f" (counter-example: {cex})" if cex else ""
     except Unsupported as e:
         ok, why = False, f" (the predicate is no longer a pure comparison of current and maximum: {e})"
     ctx.ob("3.2-predicate", con3, ok, "the budget is reached exactly when a budget is set (maximum != 0) and current >= maximum; with > one extra new point is evaluated" + why, node=(rets or [p])[0], stmt="reached iff maximum != 0 and current >= maximum")
+
+
+def _comparison_form(index, cls, func: ast.AST) -> ast.AST:
+    """A copy of the predicate ``func`` spelt with comparisons of attributes only (what gv.ordering decides):
+
+    - ``self.<p>`` where ``p`` is a property of ``cls`` whose body is one ``return <expr>`` is replaced by ``<expr>``;
+    - the locals read by a test or a returned value are replaced by their definition (``r = a - b; return r <= 0``);
+    - ``a - b <op> 0`` (and ``0 <op> a - b``) is written ``a <op> b`` (``b <op> a``): the same relation on numbers.
+    The original node is returned when nothing applies.
+    """
+    import copy
+
+    from gv.dataflow import SymValues
+
+    props = {}
+    for c_ in index.mro(cls):
+        for name in c_.properties:
+            fn = c_.methods.get(name)
+            if name in props or fn is None or fn is func:
+                continue
+            body = [b for b in fn.body if not (isinstance(b, ast.Expr) and isinstance(b.value, ast.Constant))]
+            if len(body) == 1 and isinstance(body[0], ast.Return) and body[0].value is not None:
+                props[name] = body[0].value
+
+    class Props(ast.NodeTransformer):
+        def visit_Attribute(self, n):  # noqa: N802
+            self.generic_visit(n)
+            if isinstance(n.ctx, ast.Load) and isinstance(n.value, ast.Name) and n.value.id == "self" and n.attr in props:
+                return copy.deepcopy(props[n.attr])
+            return n
+
+    def is_zero(e):
+        return isinstance(e, ast.Constant) and not isinstance(e.value, bool) and e.value == 0
+
+    def is_diff(e):
+        return isinstance(e, ast.BinOp) and isinstance(e.op, ast.Sub)
+
+    class Diffs(ast.NodeTransformer):
+        def visit_Compare(self, n):  # noqa: N802
+            self.generic_visit(n)
+            if len(n.ops) == 1 and type(n.ops[0]) in (ast.Eq, ast.NotEq, ast.Lt, ast.LtE, ast.Gt, ast.GtE):
+                left, right = n.left, n.comparators[0]
+                if is_diff(left) and is_zero(right):
+                    return ast.copy_location(ast.Compare(left=left.left, ops=n.ops, comparators=[left.right]), n)
+                if is_zero(left) and is_diff(right):
+                    return ast.copy_location(ast.Compare(left=right.right, ops=n.ops, comparators=[right.left]), n)
+            return n
+
+    g = copy.deepcopy(func)
+    for _ in range(3):  # a property may read another one
+        g = Props().visit(g)
+    try:
+        sv = SymValues(g)
+        sites = [(s_, "value" if isinstance(s_, ast.Return) else "test") for s_ in stmts_of(g) if (isinstance(s_, ast.Return) and s_.value is not None) or isinstance(s_, ast.If)]
+        repl = []
+        for s_, field in sites:
+            alts = sv.exprs(getattr(s_, field))
+            if alts is not None and len(alts) == 1:
+                repl.append((s_, field, copy.deepcopy(alts[0])))
+        for s_, field, e_ in repl:
+            setattr(s_, field, e_)
+    except Exception:  # noqa: BLE001 - the unfolding is an aid: without it the predicate is judged as it is spelt
+        pass
+    g = Diffs().visit(g)
+    return ast.fix_missing_locations(g)
 
 
 def check_execute(ctx: Ctx) -> None:
@@ -291,7 +359,7 @@ def check_stop_classes(ctx: Ctx) -> None:
                     d = dotted(kw.value)
         else:
             d = dotted(val)
-        tgt = mod.classes.get(d or "")
+        tgt = _class_named(ctx.index, c.module, d)
         ok = tgt is not None and root in ctx.index.mro(tgt)
         ctx.ob("3.5-tester", cname(c.module.relpath, c.qualname), ok, f"the tolerance tester {c.name} raises {d}, which is not a TerminationCriterion", node=a)
     chk = ctx.index.method(SC, "BaseToleranceTester", "check")
@@ -311,6 +379,28 @@ def check_stop_classes(ctx: Ctx) -> None:
             tgt = ctx.index.resolve_qualified(q) if q else None
             ok = tgt is not None and root in ctx.index.mro(tgt)
             ctx.ob("3.5-raised", cname(rel, cls, meth), ok, f"{meth} stops the run with {dotted(e)}, which is not a TerminationCriterion", node=r)
+
+
+def _class_named(index, mod, name: str | None):
+    """The class a (dotted) name denotes in ``mod``: a class of the module, an imported class, a class reached through
+    an imported module (``stop_criteria.FtolReached``), or a module-level constant bound ONCE to such a name
+    (``_CRITERION: Final[...] = FtolReached``)."""
+    for _ in range(4):
+        if not name:
+            return None
+        if name in mod.classes:
+            return mod.classes[name]
+        head, _, rest = name.partition(".")
+        if head in mod.imports:
+            q = mod.imports[head] + ("." + rest if rest else "")
+            return index.resolve_qualified(q)
+        if rest or name not in mod.assigns:
+            return None
+        stores = [n for n in ast.walk(mod.tree) if isinstance(n, ast.Name) and n.id == name and isinstance(n.ctx, (ast.Store, ast.Del))]
+        if len(stores) != 1:
+            return None  # re-bound somewhere: the constant does not denote one class
+        name = dotted(mod.assigns[name])
+    return None
 
 
 def check_no_swallow(ctx: Ctx) -> None:
@@ -351,12 +441,44 @@ def check_doe_run(ctx: Ctx) -> None:
     con = cname(DOE, "BaseDOELibrary", "_run")
     cfg = cfg_of(f)
     # sequential loop
-    loops = [s for s in stmts_of(f) if isinstance(s, ast.For) and isinstance(s.iter, ast.Call) and dotted(s.iter.func) == "enumerate" and dotted(s.iter.args[0]) == "self.samples"]
+    # the loop visits the samples in order with their index: `for i, x in enumerate(self.samples)` or
+    # `for i in range(len(self.samples))` (the sample is then `self.samples[i]`, directly or through a local)
+    def _over_samples(s):
+        it = s.iter
+        if not isinstance(it, ast.Call):
+            return None
+        if dotted(it.func) == "enumerate" and it.args and dotted(it.args[0]) == "self.samples":
+            start = it.args[1] if len(it.args) > 1 else kwarg(it, "start")
+            from_zero = start is None or (const_value(start, None) == 0 and not isinstance(const_value(start, None), bool))
+            return "enumerate" if from_zero else "enumerate-shifted"
+        if dotted(it.func) == "range" and isinstance(s.target, ast.Name) and not it.keywords:
+            a = it.args
+            if len(a) == 2 and const_value(a[0], None) == 0 and not isinstance(const_value(a[0], None), bool):
+                a = a[1:]
+            if len(a) == 1 and norm_stmt(a[0]) == "len(self.samples)":
+                return "range"
+        return None
+
+    loops = [s for s in stmts_of(f) if isinstance(s, ast.For) and _over_samples(s)]
     ctx.need(len(loops) == 1, "BaseDOELibrary._run: sequential loop over enumerate(self.samples) not found")
     lp = loops[0]
-    idx, val = (lp.target.elts[0].id, lp.target.elts[1].id) if isinstance(lp.target, ast.Tuple) else (None, None)
+    if _over_samples(lp) != "range":
+        idx, val = (lp.target.elts[0].id, lp.target.elts[1].id) if isinstance(lp.target, ast.Tuple) and all(isinstance(e_, ast.Name) for e_ in lp.target.elts) else (None, None)
+        if _over_samples(lp) == "enumerate-shifted":
+            idx = None  # the counter of the loop is not the index of the sample
+
+        def is_sample(arg):
+            return val is not None and dotted(arg) == val
+    else:
+        idx, val = lp.target.id, None
+        rebound = [n_ for b_ in lp.body for n_ in ast.walk(b_) if isinstance(n_, ast.Name) and n_.id == idx and isinstance(n_.ctx, (ast.Store, ast.Del))]
+
+        def is_sample(arg):
+            alts = unfolded(f, arg)
+            return not rebound and bool(alts) and all(norm_stmt(a_) == f"self.samples[{idx}]" for a_ in alts)
+
     evals = [c for c in ast.walk(lp) if isinstance(c, ast.Call) and last_attr(c) == "_evaluate_functions"]
-    ok = len(evals) == 1 and evals[0].args and dotted(evals[0].args[0]) == val
+    ok = len(evals) == 1 and evals[0].args and is_sample(evals[0].args[0])
     ctx.ob("3.7-sequential", con, bool(ok), "the sequential DOE must evaluate each generated sample exactly once, in order", node=(evals or [lp])[0])
     if evals:
         en = cfg.node_of(evals[0])
@@ -369,7 +491,7 @@ def check_doe_run(ctx: Ctx) -> None:
         outer_try = [t for t in stmts_of(f) if isinstance(t, ast.Try) and lp in [c for b_ in t.body for c in ast.walk(b_)] and any(h.type is None or "ValueError" in norm_stmt(h.type) for h in t.handlers)]
         ctx.ob("3.7-sequential", con, bool(inner_try) and not outer_try, "a sample whose evaluation raises ValueError is skipped and the next samples are still evaluated: the handler must be inside the loop over the samples, not around it", node=(outer_try or inner_try or [lp])[0], stmt="ValueError of one sample handled inside the loop")
     cbs = [c for c in ast.walk(lp) if isinstance(c, ast.Call) and dotted(c.func) == "callback"]
-    ok = all(c.args and dotted(c.args[0]) == idx for c in cbs) and bool(cbs)
+    ok = idx is not None and all(c.args and dotted(c.args[0]) == idx for c in cbs) and bool(cbs)
     ctx.ob("3.7-sequential", con, ok, "callbacks must receive the index of the sample just evaluated", node=(cbs or [lp])[0])
     # parallel branch
     def _inputs_of(c):
@@ -401,6 +523,13 @@ def check_nan_policy(ctx: Ctx) -> None:
     """
     cls = ctx.index.cls(PF, "ProblemFunction")
     n = 0
+    chk = cls.methods.get("check_function_output_includes_nan")
+    ctx.need(chk is not None, "ProblemFunction.check_function_output_includes_nan not found")
+    chk_params = [a_.arg for a_ in chk.args.args]
+    chk_default = dict(zip(chk_params[len(chk_params) - len(chk.args.defaults):], chk.args.defaults)).get("stop_if_nan")
+    # the check does nothing when it is told not to stop: every statement of it is guarded by `stop_if_nan and ...`
+    chk_body = [b_ for b_ in chk.body if not (isinstance(b_, ast.Expr) and isinstance(b_.value, ast.Constant))]
+    inert_when_off = bool(chk_body) and all(isinstance(b_, ast.If) and not b_.orelse and any(p_ and dotted(e_) == "stop_if_nan" for p_, e_ in conj_literals(b_.test)) for b_ in chk_body) and not any(isinstance(x_, ast.Name) and x_.id == "stop_if_nan" and isinstance(x_.ctx, ast.Store) for x_ in ast.walk(chk))
     for mname, m in sorted(cls.methods.items()):
         for c in walk_body(m):
             if not (isinstance(c, ast.Call) and last_attr(c) == "check_function_output_includes_nan"):
@@ -412,7 +541,14 @@ def check_nan_policy(ctx: Ctx) -> None:
             pol = kwarg(c, "stop_if_nan")
             if pol is None and len(c.args) > 1:
                 pol = c.args[1]
+            if pol is None:
+                pol = chk_default
             ok = pol is not None and dotted(pol) == "self.stop_if_nan"
+            if not ok and pol is not None and const_value(pol, None) is True and inert_when_off:
+                # `if self.stop_if_nan: check(value)`: the check stops (its default) exactly when the policy says so,
+                # and skipping it when the policy is off is what the check itself does (it is inert then)
+                cfg_m = cfg_of(m)
+                ok = literal_facts(cfg_m, cfg_m.node_of(c)).get("self.stop_if_nan") is True and not _assigns_attr(m, "stop_if_nan")
             n += 1
             ctx.ob("3.8-nan-policy", con, ok, "the NaN check of an evaluated value is not given self.stop_if_nan: with the default (stop) a NaN ends a DOE, or an optimization asked to go on, at that point", node=c, stmt=f"NaN check of `{norm_stmt(c.args[0], 40) if c.args else '?'}` follows self.stop_if_nan")
     ctx.floor("3.8-nan-policy", 4)
@@ -423,6 +559,11 @@ def check_nan_policy(ctx: Ctx) -> None:
     pre = ctx.index.method(DOE, "BaseDOELibrary", "_pre_run")
     off = [s_ for s_ in stmts_of(pre) if isinstance(s_, ast.Assign) and (dotted(s_.targets[0]) or "").endswith(".stop_if_nan")]
     ctx.ob("3.8-nan-policy", cname(DOE, "BaseDOELibrary", "_pre_run"), len(off) == 1 and const_value(off[0].value, True) is False, "a DOE must switch the NaN policy of its problem off: every generated sample is evaluated and recorded", node=(off or [pre])[0], stmt="problem.stop_if_nan = False")
+
+
+def _assigns_attr(func: ast.AST, attr: str) -> bool:
+    """Does ``func`` store into an attribute called ``attr``?"""
+    return any(isinstance(x, ast.Attribute) and x.attr == attr and isinstance(x.ctx, (ast.Store, ast.Del)) for x in ast.walk(func))
 
 
 def check_counter_kept(ctx: Ctx) -> None:
@@ -444,14 +585,36 @@ def check_counter_kept(ctx: Ctx) -> None:
 
     # callables defined under algos/: name -> function nodes (a class name stands for its __init__)
     table: dict[str, list[ast.AST]] = {}
+    owner: dict[int, object] = {}  # id(function node) -> the module that defines it (its imports name the callees)
     for rel, mod in ctx.index.modules.items():
         if not rel.startswith("algos/"):
             continue
         for fname, fn in mod.functions.items():
             table.setdefault(fname, []).append(fn)
+            owner[id(fn)] = mod
         for cn, ci in mod.classes.items():
+            for m_ in ci.methods.values():
+                owner[id(m_)] = mod
             if "__init__" in ci.methods:
                 table.setdefault(cn, []).append(ci.methods["__init__"])
+
+    def callee(fn: ast.AST, call: ast.Call) -> str | None:
+        """The name, in ``table``, of the function or class that ``call`` (inside ``fn``) calls: a plain name, an
+        imported name under an alias, or an attribute of an imported GEMSEO module (``lagrange_multipliers.X(...)``)."""
+        mod_ = owner.get(id(fn))
+        imports = mod_.imports if mod_ is not None else {}
+        func = call.func
+        if isinstance(func, ast.Name):
+            q = imports.get(func.id, "")
+            name = q.rsplit(".", 1)[-1] if q.startswith("gemseo") and func.id not in table else func.id
+        elif isinstance(func, ast.Attribute):
+            head = (dotted(func.value) or "").split(".")[0]
+            if not imports.get(head, "").startswith("gemseo"):
+                return None
+            name = func.attr
+        else:
+            return None
+        return name if name in table else None
 
     def may_zero(call: ast.Call) -> bool:
         if last_attr(call) != "reset" or not isinstance(call.func, ast.Attribute):
@@ -481,8 +644,8 @@ def check_counter_kept(ctx: Ctx) -> None:
             if may_zero(c):
                 chain = norm_stmt(c, 60)
             else:
-                name = dotted(c.func) if isinstance(c.func, ast.Name) else None
-                if name and name in table and depth > 0 and name not in seen:
+                name = callee(fn, c)
+                if name and depth > 0 and name not in seen:
                     for g in table[name]:
                         sub = unprotected(g, depth - 1, seen | {name})
                         if sub:
@@ -496,25 +659,26 @@ def check_counter_kept(ctx: Ctx) -> None:
     n = 0
     fns = list(sc.functions.items()) + [(f"{cn}.{mn}", m) for cn, ci in sc.classes.items() for mn, m in ci.methods.items()]
     for fname, fn in sorted(fns, key=lambda kv: kv[0]):
-        calls_out = [c for c in walk_body(fn) if isinstance(c, ast.Call) and isinstance(c.func, ast.Name) and c.func.id in table]
+        calls_out = [c for c in walk_body(fn) if isinstance(c, ast.Call) and callee(fn, c)]
         bad = {id(c): ch for c, ch in unprotected(fn, 3, set())}
         for c in calls_out:
-            reach_any = any(True for g in table[c.func.id] for _ in [0] if _reaches_reset(g, table, may_zero, 2, {c.func.id}))
+            cal = callee(fn, c)
+            reach_any = any(_reaches_reset(g, table, may_zero, 2, {cal}, callee) for g in table[cal])
             if not reach_any:
                 continue
             n += 1
-            ctx.ob("3.9-counter-kept", cname(SC, None, fname), id(c) not in bad, f"`{c.func.id}(...)` reaches `{bad.get(id(c), '')}`, which puts the evaluation counter back to 0 in the middle of a run (the criterion is tested at every new iteration): the budget max_iter is then never reached; the counter must be saved before and restored after", node=c, stmt=f"{c.func.id}(...) keeps the evaluation counter")
+            ctx.ob("3.9-counter-kept", cname(SC, None, fname), id(c) not in bad, f"`{cal}(...)` reaches `{bad.get(id(c), '')}`, which puts the evaluation counter back to 0 in the middle of a run (the criterion is tested at every new iteration): the budget max_iter is then never reached; the counter must be saved before and restored after", node=c, stmt=f"{cal}(...) keeps the evaluation counter")
     ctx.counts["3.9-sites"] = n
     ctx.floor("3.9-counter-kept", 1)
 
 
-def _reaches_reset(fn, table, may_zero, depth, seen) -> bool:
+def _reaches_reset(fn, table, may_zero, depth, seen, callee) -> bool:
     for c in walk_body(fn):
         if isinstance(c, ast.Call):
             if may_zero(c):
                 return True
-            name = dotted(c.func) if isinstance(c.func, ast.Name) else None
-            if name and name in table and depth > 0 and name not in seen and any(_reaches_reset(g, table, may_zero, depth - 1, seen | {name}) for g in table[name]):
+            name = callee(fn, c)
+            if name and depth > 0 and name not in seen and any(_reaches_reset(g, table, may_zero, depth - 1, seen | {name}, callee) for g in table[name]):
                 return True
     return False
 
